@@ -134,6 +134,7 @@ class Verifier:
         eng = self.eng
         eng.frames.append(Frame(fn, c))
         try:
+            st.sav = fresh('sav0', so.TySeq)
             for r in c.requires:
                 v = eng.spec_eval(r, st, env, old=st)
                 st.assume(eng.truth(v, st))
@@ -235,6 +236,12 @@ class Verifier:
             eng.oblige(st, t1 == t0, '%s::frame:%s' % (fn.qual, r), 'post',
                        'node %s unchanged (not in modifies)' % r,
                        fn.node.lineno, c.properties)
+        if not c.traces and st.sav is not None and entry.sav is not None \
+                and not st.sav.eq(entry.sav):
+            eng.oblige(st, st.sav == entry.sav, '%s::frame:hooks' % fn.qual,
+                       'post', 'no savorize/sweeten hook is called (the '
+                       'contract has no traces() clause)', fn.node.lineno,
+                       c.properties)
         rebinds = set()
         for m in c.rebinds:
             obj = eng.spec_eval(m.value, entry, env)
@@ -332,10 +339,46 @@ class Verifier:
                         frontier.append(inst.t)
             if level == depth:
                 break
+        axioms.extend(self.prefix_locality(all_apps))
         for p in eng.models.plugins:
             if hasattr(p, 'axioms'):
                 axioms.extend(p.axioms(list(formulas) + axioms))
         return axioms
+
+    def prefix_locality(self, all_apps):
+        """meta-theorem of the spec language (DESIGN appendix D): an
+        index-recursive function F(.., xs, .., i) whose body reads only
+        xs[i-1] and F at i-1 does not see an update of xs at position k >= i:
+            F(upd(xs, k, x), i) == F(xs, i)     for i <= k"""
+        from .terms import _UPD, _APP, seq_len
+        out = []
+        for name, apps in all_apps.items():
+            f = self.eng.specs.funs.get(name)
+            if f is None or not f.local:
+                continue
+            si, ii = f.params.index(f.local[0]), f.params.index(f.local[1])
+            for t in list(apps):
+                args = list(t.children())
+                sq = args[si]
+                hops = 0
+                if sq.get_id() in _APP:
+                    # F(xs ++ [x], i) == F(xs, i)   for i <= len(xs)
+                    base, x = _APP[sq.get_id()]
+                    a2 = list(args)
+                    a2[si] = base
+                    out.append(z3.Implies(args[ii] <= seq_len(base),
+                                          t == f.decl(*a2)))
+                while sq.get_id() in _UPD and hops < 4:
+                    base, k, x = _UPD[sq.get_id()]
+                    a2 = list(args)
+                    a2[si] = base
+                    t2 = f.decl(*a2)
+                    out.append(z3.Implies(args[ii] <= k, t == t2))
+                    sq = base
+                    args = a2
+                    t = t2
+                    hops += 1
+        return out
 
     def match_triggers(self, lem, all_apps):
         """bindings of the lemma parameters such that every trigger pattern
